@@ -3,6 +3,7 @@ package main
 import (
 	"fmt"
 	"go/types"
+	"os"
 	"regexp"
 	"strings"
 	"unicode/utf8"
@@ -257,6 +258,12 @@ func (e *Exec) obligation(c *Term, label string) {
 		return
 	}
 	if e.hintValid && e.ev.eval(c) == 0 {
+		if os.Getenv("GOSX_DEBUG_PC") != "" {
+			fmt.Fprintf(os.Stderr, "VIOLATION-BY-HINT %s decisions=%v hint=%v\n", label, e.decisions, e.hint)
+			for i, t := range e.pc {
+				fmt.Fprintf(os.Stderr, "  pc[%d] eval=%d %s\n", i, newEval(e.hint).eval(t), t.String())
+			}
+		}
 		run.noteObligation(label, "sat")
 		e.events = append(e.events, pathEvent{Kind: "violation", Label: label, What: "assertion violated", Model: e.hint})
 		e.assume(c)
